@@ -54,7 +54,34 @@ const (
 	basePatience = 5 * time.Second
 	// watchdog for joining harness-owned goroutines; firing => inconclusive
 	joinWatchdog = 60 * time.Second
+	// watchdog for the wrapper call itself (it runs on its own goroutine); firing => inconclusive,
+	// and the rest of this process's cases are skipped (a wrapper that never returns cannot be joined)
+	wrapWatchdog = 40 * time.Second
 )
+
+// stuck is set when a wrapper call did not return within wrapWatchdog.
+var stuck atomic.Bool
+
+func skipIfStuck(c *kit.Case) bool {
+	if stuck.Load() {
+		c.Inconclusive("skipped: an earlier wrapper call in this process never returned")
+		return true
+	}
+	return false
+}
+
+// awaitWrapper waits for the goroutine that called the wrapper.
+func awaitWrapper(ch <-chan struct{}) bool {
+	t := time.NewTimer(wrapWatchdog)
+	defer t.Stop()
+	select {
+	case <-ch:
+		return true
+	case <-t.C:
+		stuck.Store(true)
+		return false
+	}
+}
 
 // waitBroken is set once a "wrapper waits for the work" violation has been established
 // in this process: later executions then release blocked work after a short patience
@@ -564,7 +591,7 @@ func (x *restExec) run(h http.Handler) bool {
 		x.cancel()
 	}
 	x.t0 = time.Now()
-	func() {
+	go func() {
 		defer func() {
 			if p := recover(); p != nil {
 				x.panicked = true
@@ -576,6 +603,10 @@ func (x *restExec) run(h http.Handler) bool {
 		}()
 		h.ServeHTTP(x.rec, req)
 	}()
+	if !awaitWrapper(x.wrapperRet) {
+		close(x.giveUp)
+		return false
+	}
 	t := time.NewTimer(joinWatchdog)
 	defer t.Stop()
 	select {
@@ -936,7 +967,7 @@ func runRest(c *kit.Case, rp reporter, sc script, pl plan) (verdict, bool) {
 	x := newRestExec(sc, pl)
 	h := handler.TimeoutHandler(pl.Timeout)(http.HandlerFunc(x.serve))
 	if !x.run(h) {
-		c.Inconclusive(fmt.Sprintf("could not join the work goroutine (mode %s)", pl.Mode))
+		c.Inconclusive(fmt.Sprintf("could not join the wrapper call or the work goroutine (mode %s)", pl.Mode))
 		return verdict{}, false
 	}
 	v := x.evaluate(rp)
@@ -957,6 +988,9 @@ func runRest(c *kit.Case, rp reporter, sc script, pl plan) (verdict, bool) {
 
 // restCancelCase: one script, every expiry mode at every position.
 func restCancelCase(c *kit.Case) {
+	if skipIfStuck(c) {
+		return
+	}
 	r := c.R
 	rp := reporter{c, "rest"}
 	tag := fmt.Sprintf("c%d", c.Index)
@@ -1014,6 +1048,9 @@ func census(c *kit.Case, rp reporter) {
 
 // restExemptCase: websocket-upgrade / event-stream requests bypass the timeout.
 func restExemptCase(c *kit.Case) {
+	if skipIfStuck(c) {
+		return
+	}
 	r := c.R
 	rp := reporter{c, "rest"}
 	sc := genScript(r, fmt.Sprintf("x%d", c.Index), false)
@@ -1043,6 +1080,9 @@ func restExemptCase(c *kit.Case) {
 // restTimerCase: real timeouts of 1–20 ms, work durations around the timeout; several
 // executions run concurrently (they mostly sleep). Both outcomes are legal at the boundary.
 func restTimerCase(c *kit.Case) {
+	if skipIfStuck(c) {
+		return
+	}
 	r := c.R
 	rp := reporter{c, "rest"}
 	type job struct {
@@ -1266,7 +1306,7 @@ func (x *fxExec) run() bool {
 		cancel()
 	}
 	x.t0 = time.Now()
-	func() {
+	go func() {
 		defer func() {
 			if p := recover(); p != nil {
 				x.panicked = true
@@ -1282,6 +1322,10 @@ func (x *fxExec) run() bool {
 			x.got = fx.DoWithTimeout(x.fn, x.pl.Timeout, fx.WithContext(parent))
 		}
 	}()
+	if !awaitWrapper(x.wrapRet) {
+		close(x.giveUp)
+		return false
+	}
 	t := time.NewTimer(joinWatchdog)
 	defer t.Stop()
 	select {
@@ -1395,6 +1439,9 @@ func runFx(c *kit.Case, rp reporter, pl fxPlan, tag string) (verdict, bool) {
 }
 
 func fxCancelCase(c *kit.Case) {
+	if skipIfStuck(c) {
+		return
+	}
 	r := c.R
 	rp := reporter{c, "fx"}
 	evals := int64(0)
@@ -1422,6 +1469,9 @@ func fxCancelCase(c *kit.Case) {
 }
 
 func fxTimerCase(c *kit.Case) {
+	if skipIfStuck(c) {
+		return
+	}
 	r := c.R
 	rp := reporter{c, "fx"}
 	const par = 8
@@ -1521,6 +1571,9 @@ type e2eReq struct {
 }
 
 func e2eCase(c *kit.Case) {
+	if skipIfStuck(c) {
+		return
+	}
 	r := c.R
 	rp := reporter{c, "e2e"}
 	// one timeout is large so that http.Server.WriteTimeout (1.1 × the largest route timeout) is out of the way
